@@ -4,8 +4,10 @@ Crash points enumerated per program:
   * optimizer: every pass index k (top level) and every (function j, pass k),
     under the default (swallow) policy and under the strict env switch;
   * lowering: every equation-dispatch ordinal e over the whole jaxpr tree,
-    three fault modes (registry miss / plugin binds nothing / plugin binds a
-    value no node produces);
+    seven fault modes (registry miss / plugin binds nothing / plugin binds a
+    value no node produces / plugin raises / an input of the equation is
+    unbound when it is reached / plugin returns too many values / plugin
+    returns a non-value);
   * a catalogue of named unsupported constructs (fixtures).
 Every verdict is relative to the fault-free control of the same program in
 the same interpreter.
@@ -241,7 +243,7 @@ def op_opt_abort(op: dict, log: EventLog, viol: list, stats: Counter) -> None:
 
 
 def op_lower_fault(op: dict, log: EventLog, viol: list, stats: Counter) -> None:
-    from sim.runtime import to_onnx_program
+    from sim.runtime import SimFault, to_onnx_program
     from jax2onnx.converter import lowering_dispatch as ld
     from jax2onnx.converter.output_binding import is_drop_var
     import onnx_ir as ir
@@ -271,12 +273,19 @@ def op_lower_fault(op: dict, log: EventLog, viol: list, stats: Counter) -> None:
 
     def disp_wrapper(plugin, *, ctx, eqn, primitive_name, source, converter=None):
         idx = state["n"]
-        if mode != "miss":
+        if mode not in ("miss", "unbind_input"):
             state["n"] += 1
             if idx == e:
                 state["fired"] += 1
                 if mode == "nobind":
                     return None
+                if mode == "raise":
+                    raise SimFault(f"sim: plugin lowering of equation #{idx} raised")
+                if mode == "wrongcount":
+                    n_out = sum(1 for v in getattr(eqn, "outvars", ()) if not is_drop_var(v))
+                    return [ir.Value(name=f"sim_extra_{idx}_{q}") for q in range(n_out + 1)]
+                if mode == "wrongtype":
+                    return "sim: not an ir.Value"
                 if mode == "dangling":
                     for v in getattr(eqn, "outvars", ()):
                         if is_drop_var(v):
@@ -285,8 +294,29 @@ def op_lower_fault(op: dict, log: EventLog, viol: list, stats: Counter) -> None:
                     return None
         return real_disp(plugin, ctx=ctx, eqn=eqn, primitive_name=primitive_name, source=source, converter=converter)
 
+    real_leq = ld.lower_equation_with_plugin
+
+    def leq_wrapper(plugin, *, ctx, eqn, primitive_name, eqn_index, source, converter=None):
+        # "unbind_input": the value an upstream equation should have bound for one of this
+        # equation's inputs is missing when the equation is reached
+        if mode == "unbind_input":
+            idx = state["n"]
+            state["n"] += 1
+            if idx == e:
+                v2v = ctx.builder._var2val
+                for v in getattr(eqn, "invars", ()):
+                    try:
+                        if not is_drop_var(v) and type(v).__name__ == "Var" and v in v2v:
+                            del v2v[v]
+                            state["fired"] += 1
+                            break
+                    except TypeError:
+                        continue
+        return real_leq(plugin, ctx=ctx, eqn=eqn, primitive_name=primitive_name, eqn_index=eqn_index, source=source, converter=converter)
+
     ld.get_registered_lowering_plugin = get_wrapper
     ld.dispatch_plugin_lowering = disp_wrapper
+    ld.lower_equation_with_plugin = leq_wrapper
     raised = None
     try:
         to_onnx_program(c.prog)
@@ -295,6 +325,7 @@ def op_lower_fault(op: dict, log: EventLog, viol: list, stats: Counter) -> None:
     finally:
         ld.get_registered_lowering_plugin = real_get
         ld.dispatch_plugin_lowering = real_disp
+        ld.lower_equation_with_plugin = real_leq
     stats[f"fault_lower_{mode}"] += 1
     if not state["fired"]:
         stats["lower_fault_not_fired"] += 1
@@ -303,7 +334,7 @@ def op_lower_fault(op: dict, log: EventLog, viol: list, stats: Counter) -> None:
     nested = info["source"] != "converter"
     if nested:
         stats["lower_fault_in_nested_body"] += 1
-    must_raise = mode == "miss" or info["nondrop"] > 0
+    must_raise = mode in ("miss", "raise", "unbind_input") or info["nondrop"] > 0
     if raised is None and must_raise:
         viol.append(
             {
@@ -415,8 +446,10 @@ def expand_enum(op: dict) -> list[dict]:
             rest = [i for i in range(n) if c.eqns[i]["source"] == "converter"]
             r.shuffle(rest)
             idxs = sorted((nested[: cap // 2] + rest)[:cap])
+        extra = ("raise", "unbind_input", "wrongcount", "wrongtype")
         for e in idxs:
-            for mode in ("miss", "nobind", "dangling"):
+            modes = ("miss", "nobind", "dangling") + (extra if op.get("all_modes", False) else (extra[e % len(extra)],))
+            for mode in modes:
                 subs.append({"op": "lower_fault", "pid": pid, "e": e, "mode": mode})
     return subs
 
@@ -540,7 +573,7 @@ def main(tier: str) -> int:
     n_shards = max(1, min(len(pids), co.JOBS * (6 if tier == "thorough" else 2)))
     shards: list[list[dict]] = [[] for _ in range(n_shards)]
     for i, pid in enumerate(pids):
-        shards[i % n_shards].append({"op": "enum", "pid": pid, "eqn_cap": eqn_cap, "fn_cap": fn_cap, "seed": seed, "max_eqns": 10**9 if tier == "thorough" else 250})
+        shards[i % n_shards].append({"op": "enum", "pid": pid, "eqn_cap": eqn_cap, "fn_cap": fn_cap, "seed": seed, "max_eqns": 10**9 if tier == "thorough" else 250, "all_modes": tier == "thorough"})
     for i, cid in enumerate(catalogue_ids()):
         shards[i % n_shards].append({"op": "catalogue", "pid": cid})
     plans = [{"property": PROP, "hashseed": 0, "ops": ops} for ops in shards if ops]
@@ -594,7 +627,7 @@ def main(tier: str) -> int:
             "distinct_run_logs": len(digests),
             "real_vs_stub": {
                 "real": "jax2onnx (all of /repo), JAX tracing, onnx_ir passes, onnx checker, onnxruntime",
-                "stub": "only the injected exception at pass entry and the three misbehaving-lowering stand-ins (empty registry / returns nothing / binds an unproduced value)",
+                "stub": "only the injected exception at pass entry and the seven misbehaving-lowering stand-ins (empty registry / returns nothing / binds an unproduced value / raises / input unbound / too many values / non-value)",
             },
             "program_table_head": progs[:8],
         },
